@@ -121,4 +121,51 @@ def customNames : List Item → List (List UInt8)
   | .sec _ _ :: t => customNames t
   | .custom n _ :: t => n :: customNames t
 
+/-! ### types, limits and the vector-shaped sections (spec §5.3 "Types", §5.5.4-5.5.7, 5.5.11) -/
+
+inductive VT | i32 | i64 | f32 | f64
+  deriving DecidableEq, Repr
+
+/-- valtype ::= 0x7F | 0x7E | 0x7D | 0x7C -/
+def VT.byte : VT → UInt8
+  | .i32 => 0x7F | .i64 => 0x7E | .f32 => 0x7D | .f64 => 0x7C
+
+structure FuncTy where
+  params : List VT
+  results : List VT
+  deriving DecidableEq, Repr
+
+/-- limits, incl. the threads proposal's shared flag (which requires a maximum) -/
+inductive Lim
+  | noMax (min : Nat)
+  | withMax (min max : Nat)
+  | shared (min max : Nat)
+  deriving DecidableEq, Repr
+
+/-- concatenation of the encodings of the elements -/
+inductive EncSeq {α : Type} (E : α → List UInt8 → Prop) : List α → List UInt8 → Prop
+  | nil : EncSeq E [] []
+  | cons {a : α} {as : List α} {b bs : List UInt8} (h : E a b) (t : EncSeq E as bs) : EncSeq E (a :: as) (b ++ bs)
+
+/-- vec(B) ::= n:u32 (x:B)^n — the count in any padding -/
+inductive EncVector {α : Type} (E : α → List UInt8 → Prop) : List α → List UInt8 → Prop
+  | mk {as : List α} {c body : List UInt8} (hc : ULeb 32 as.length c) (hb : EncSeq E as body) : EncVector E as (c ++ body)
+
+def EncValType (t : VT) (b : List UInt8) : Prop := b = [t.byte]
+
+/-- functype ::= 0x60 vec(valtype) vec(valtype) -/
+inductive EncFuncType : FuncTy → List UInt8 → Prop
+  | mk {ft : FuncTy} {p r : List UInt8} (hp : EncVector EncValType ft.params p) (hr : EncVector EncValType ft.results r) :
+      EncFuncType ft (0x60 :: (p ++ r))
+
+/-- limits ::= 0x00 n:u32 | 0x01 n:u32 m:u32 | 0x03 n:u32 m:u32 -/
+inductive EncLimits : Lim → List UInt8 → Prop
+  | noMax {n : Nat} {a : List UInt8} (ha : ULeb 32 n a) : EncLimits (.noMax n) (0x00 :: a)
+  | withMax {n m : Nat} {a b : List UInt8} (ha : ULeb 32 n a) (hb : ULeb 32 m b) : EncLimits (.withMax n m) (0x01 :: (a ++ b))
+  | shared {n m : Nat} {a b : List UInt8} (ha : ULeb 32 n a) (hb : ULeb 32 m b) : EncLimits (.shared n m) (0x03 :: (a ++ b))
+
+/-- tabletype ::= 0x70 limits -/
+inductive EncTableType : Lim → List UInt8 → Prop
+  | mk {l : Lim} {b : List UInt8} (h : EncLimits l b) : EncTableType l (0x70 :: b)
+
 end W2c2Verif.Spec.Binary
